@@ -124,6 +124,20 @@ type Spec struct {
 	MasterTree *Tree // shape of sqlite_master (nil: default)
 	// header overrides
 	SchemaFormat uint32 // 0 => 4
+	// Chains: hostile overflow chains (such images are not well-formed)
+	Chains []ChainHack
+}
+
+// ChainHack changes the Nth (0-based, in build order) overflowing cell of the
+// object Owner: the cell declares DeclLen payload bytes (0: the real length)
+// and the last page of its overflow chain points to the LoopTo-th page of the
+// chain (1-based; 0: end of chain as usual), i.e. a cycle with a tail of
+// LoopTo-1 pages.
+type ChainHack struct {
+	Owner   string
+	Nth     int
+	DeclLen int64
+	LoopTo  int
 }
 
 // Field describes one structural field of the image (for structure-aware corruption)
@@ -154,6 +168,46 @@ type builder struct {
 	next   int
 	fields []Field
 	// deferred allocation for scatter
+	chains  []ChainHack
+	ovCount map[string]int
+	cur     *ChainHack
+	// ChainLens: number of overflow pages of each hacked cell (reported back)
+	chainLen int
+}
+
+// hack is called once for every overflowing cell of owner, in build order
+func (b *builder) hack(owner string) *ChainHack {
+	if len(b.chains) == 0 {
+		return nil
+	}
+	if b.ovCount == nil {
+		b.ovCount = map[string]int{}
+	}
+	n := b.ovCount[owner]
+	b.ovCount[owner] = n + 1
+	for i := range b.chains {
+		if b.chains[i].Owner == owner && b.chains[i].Nth == n {
+			return &b.chains[i]
+		}
+	}
+	return nil
+}
+
+func localSize64(ps int, payload int64, index bool) int {
+	u := int64(ps)
+	x := u - 35
+	if index {
+		x = ((u-12)*64)/255 - 23
+	}
+	if payload <= x {
+		return int(payload)
+	}
+	m := ((u-12)*32)/255 - 23
+	k := m + (payload-m)%(u-4)
+	if k <= x {
+		return int(k)
+	}
+	return int(m)
 }
 
 func (b *builder) alloc() int {
@@ -204,6 +258,8 @@ func (b *builder) spill(rest []byte, lay Layout, owner string) int {
 		nxt := 0
 		if i+1 < n {
 			nxt = pgs[i+1]
+		} else if b.cur != nil && b.cur.LoopTo > 0 && b.cur.LoopTo <= n {
+			nxt = pgs[b.cur.LoopTo-1]
 		}
 		binary.BigEndian.PutUint32(p[0:4], uint32(nxt))
 		chunk := rest
@@ -215,12 +271,20 @@ func (b *builder) spill(rest []byte, lay Layout, owner string) int {
 		b.pages[pg] = p
 		b.fields = append(b.fields, Field{Off: (pg - 1) * b.ps, Width: 4, Kind: "next-overflow", Page: pg, Info: owner})
 	}
+	b.chainLen = n
 	return pgs[0]
 }
 
 func (b *builder) payloadCell(prefix []byte, prefixFields []Field, payload []byte, index bool, lay Layout, owner string) cell {
 	c := cell{bytes: append([]byte{}, prefix...), fields: prefixFields}
 	local := localSize(b.ps, len(payload), index)
+	if b.cur != nil && b.cur.DeclLen > 0 {
+		// the reader computes the local size from the declared length
+		local = localSize64(b.ps, b.cur.DeclLen, index)
+		if local >= len(payload) {
+			local = len(payload) - 1 // keep at least one byte for the chain (not consistent with the declaration; only for tiny payloads)
+		}
+	}
 	// record header fields (relative to payload start)
 	pstart := len(c.bytes)
 	c.fields = append(c.fields, recordFields(payload, pstart, local)...)
@@ -379,11 +443,19 @@ func (b *builder) buildTable(t *Tree, entries []tableEntry, root int, lay Layout
 		if t.Leaf() {
 			cells := make([]cell, len(ents))
 			for i, e := range ents {
-				pre := ref.PutVarint(nil, int64(len(e.payload)))
+				decl := int64(len(e.payload))
+				b.cur = nil
+				if localSize(b.ps, len(e.payload), false) < len(e.payload) {
+					if b.cur = b.hack(owner); b.cur != nil && b.cur.DeclLen > 0 {
+						decl = b.cur.DeclLen
+					}
+				}
+				pre := ref.PutVarint(nil, decl)
 				l1 := len(pre)
 				pre = ref.PutVarint(pre, e.rowid)
 				fs := []Field{{Off: 0, Width: l1, Kind: "paylen"}, {Off: l1, Width: len(pre) - l1, Kind: "rowid"}}
 				cells[i] = b.payloadCell(pre, fs, e.payload, false, lay, owner)
+				b.cur = nil
 				if localSize(b.ps, len(e.payload), false) < len(e.payload) {
 					*spill++
 				}
@@ -435,11 +507,17 @@ func (b *builder) buildIndex(t *Tree, payloads [][]byte, root int, lay Layout, o
 	rec = func(t *Tree, ents [][]byte, pg int) {
 		mk := func(pre []byte, fs []Field, pl []byte) cell {
 			l0 := len(pre)
-			pre = ref.PutVarint(pre, int64(len(pl)))
-			fs = append(fs, Field{Off: l0, Width: len(pre) - l0, Kind: "paylen"})
+			decl := int64(len(pl))
+			b.cur = nil
 			if localSize(b.ps, len(pl), true) < len(pl) {
 				*spill++
+				if b.cur = b.hack(owner); b.cur != nil && b.cur.DeclLen > 0 {
+					decl = b.cur.DeclLen
+				}
 			}
+			pre = ref.PutVarint(pre, decl)
+			fs = append(fs, Field{Off: l0, Width: len(pre) - l0, Kind: "paylen"})
+			defer func() { b.cur = nil }()
 			return b.payloadCell(pre, fs, pl, true, lay, owner)
 		}
 		if t.Leaf() {
@@ -695,7 +773,7 @@ func Build(s *Spec) (img *Image, err error) {
 			err = fmt.Errorf("%v", p)
 		}
 	}()
-	b := &builder{ps: s.PageSize, pages: map[int][]byte{}, next: 1}
+	b := &builder{ps: s.PageSize, pages: map[int][]byte{}, next: 1, chains: s.Chains}
 	img = &Image{TableRows: map[string][]Row{}, IndexRows: map[string][][]interface{}{}, IndexOwner: map[string]string{}, Roots: map[string]int{}, Depth: map[string]int{}, Spill: map[string]int{}}
 
 	type masterRow struct {
